@@ -131,6 +131,7 @@ asn1p_parse_file(const char *filename, enum asn1p_flags flags) {
 extern int asn1p_lexer_types_year;
 extern int asn1p_lexer_constructs_year;
 extern int asn1p_lexer_extended_values;
+extern int asn1p_as_pointer;
 extern int asn1p__flex_debug;
 extern int asn1p_debug;
 
@@ -139,6 +140,7 @@ _asn1p_set_flags(enum asn1p_flags flags) {
 
 	asn1p_lexer_types_year = 0;
 	asn1p_lexer_constructs_year = 0;
+	asn1p_as_pointer = 0;	/* A directive left over by the previous file */
 	asn1p__flex_debug = 0;
 	asn1p_debug = 0;
 
